@@ -22,6 +22,12 @@ def plan(tier):
     for c, l in combos:
         d = 1 if (c, l) in deep or tier == "thorough" else 0
         pl.append((PG.map_prog(c, l, 2, 0.05), d, PT))
+    # the iterables need not be independent lists: one-shot iterators, the same iterator given
+    # several times, generators that watch each other
+    for shape in ("iter", "alias", "dep"):
+        for c in (1, 2, 3, 5):
+            for l in ((4, 4), (5, 3), (2, 5), (3, 3, 3), (0, 2), (1, 1)):
+                pl.append((PG.map_prog(c, l, 2, None, shape=shape), 0, PT))
     if tier == "thorough":
         pl += [(PG.cancel_prog(1), 2, PT), (PG.cancel_two_threads(1), 2, dict(kinds=("P",)))]
     return pl
